@@ -36,7 +36,9 @@ def run(ctx):
         canonical = bool(rng.random() < 0.35)
         n_off = int(rng.choice([0, 1, 2], p=[.5, .3, .2]))
         pb = session.make_problem(rng, N=60, profile=str(rng.choice(["moderate", "flat"])), n_offsets=n_off,
-                                  poly_trend=int(rng.choice([1, 2, 3])), kkind=str(rng.choice(["default", "normal", "default-custom"])))
+                                  poly_trend=int(rng.choice([1, 2, 3])), kkind=str(rng.choice(["default", "normal", "default-custom"])),
+                                  # single data sets: a user-given reference epoch (on any time scale) in 2 of 3 cases
+                                  t_ref_kind=str(rng.choice(["default", "inside", "before", "far"], p=[.34, .26, .2, .2])))
         ps = pb.ps
         if canonical:
             # re-express every prior in the canonical system: day / rad / data unit
